@@ -280,13 +280,38 @@ type TEv struct {
 	End    int    `json:"end"`  // write: end position in chunks (exclusive)
 	Res    string `json:"res"`
 	Mut    bool   `json:"mut"`
+	// for the I/O-order judge (spec/WalIoTrace.tla)
+	ID   int   `json:"id"`   // create/unlink/write/sync: segment id parsed from the file name (-1: none)
+	IDs  []int `json:"ids"`  // mcommit: ids of the segments listed by the committed state
+	Next int   `json:"next"` // mcommit: NextSegmentID
+	BG   bool  `json:"bg"`   // issued by a background goroutine (rotation)
+	OpK  string `json:"opk"` // inv markers: kind of the API call
 }
 
 // Project converts a log into TLC events.
 func Project(log []Ev) []TEv {
 	out := make([]TEv, 0, len(log))
 	for _, e := range log {
-		t := TEv{Ev: "io", Seq: e.Seq, Call: e.Call, Name: e.Name, Chunks: []int{}, Res: e.Res}
+		t := TEv{Ev: "io", Seq: e.Seq, Call: e.Call, Name: e.Name, Chunks: []int{}, Res: e.Res, ID: -1, IDs: []int{}, BG: e.BG}
+		if e.Name != "" {
+			var base, id uint64
+			if n, _ := fmt.Sscanf(e.Name, "%020d-%016x.wal", &base, &id); n == 2 {
+				t.ID = int(id)
+			}
+		}
+		if e.Call == "mcommit" && e.Meta != nil {
+			for _, s := range e.Meta.Segments {
+				t.IDs = append(t.IDs, int(s.ID))
+			}
+			t.Next = int(e.Meta.NextSegmentID)
+		}
+		if e.Call == "inv" {
+			var op struct {
+				Op string `json:"op"`
+			}
+			json.Unmarshal([]byte(e.Op), &op)
+			t.OpK = op.Op
+		}
 		switch e.Call {
 		case "create":
 			t.Size = (e.N + Chunk - 1) / Chunk
